@@ -188,6 +188,24 @@ def run(ctx):
     for (crate, path, want, what) in LEAF_CONSTS:
         limits += 1
         v = const_of(g, crate, path)
+        if v is None and what.startswith("runtime CString limit"):
+            # the limit is no longer a named constant (inlined literal, loop bound, moved item): measure it - the reader is interpreted
+            # for every string length up to the limit and one beyond (the interpretation of C01's leaf.codecs)
+            from ..facts import facts as _facts
+            from . import c01_leaf
+            FB = {c: _facts(c) for c in ("wow_world_messages", "wow_world_base", "wow_login_messages")}
+            readers = [f for f in FB[crate].all("fn", lambda q: q.startswith("crate::util::") and q.split("::")[-1].endswith("read_c_string_to_vec"))]
+
+            class _Lim:
+                samples = ctx.samples
+
+                def violate(self, rule, key, message, file=None, line=None, **kw):
+                    ctx.violate("leaf.limits", f"{crate}|measured|{key}", f"runtime CString limit of {crate} measured from the reader: {message}", file, line)
+            if not readers:
+                ctx.violate("leaf.limits", f"{crate}|{path}|missing", f"neither the constant {path} ({what}) nor a CString reader was found in {crate} (anchor disappeared)")
+            for rf in readers:
+                c01_leaf.check_cstring(_Lim(), FB, crate, rf)
+            continue
         if v is None:
             ctx.violate("leaf.limits", f"{crate}|{path}|missing", f"leaf limit constant {path} ({what}) not found in {crate} (anchor disappeared)")
         elif v != want:
